@@ -16,6 +16,7 @@ import SdnsVerif.Model.Packer
   `msg decide`: `direct:ok/<n> size=<n>` | `lib:<outcome>`
 * `msg serve <ub|ud|ts|tl> <directPack> <-|abort|abort2|commit> lib=<outcome> ulen=<n>` → the model's `udpWrite`/`udpWriteMsg`/`tcpStage` beneath
   `writeMsg` on the same skeleton: `sent=ok/<n>` | `sent=none err` | `panic`
+* `cache strip <an> <ns>` → the model's `prepareStripped`: `an=<n> ns=<n>` | `none`
 * `cache view <kinds>` → what admission keeps for that additional section: `ar=<n> compress=t` | `not-admitted` | `panic`
 * `pool own <events>` → `dup=f|t`: the ownership model run over the endings `ok|err|werr|panic|fail|decl`
 * `pool inspect` → `clean` (the model's pool invariant)
@@ -215,6 +216,7 @@ def step (st : State) (w : List String) : State × String :=
       else (st, "bad-op")
     | _, _, _, _ => (st, "bad-op")
   -- `msg doq lib=<outcome of the library for the message with Id 0>`: the DoQ writer sends that frame, id 0
+  | ["msg", "stripped"] => (st, "unmodelled")
   | ["msg", "doq", libo] =>
     match kv "lib" libo with
     | some lo =>
@@ -237,6 +239,28 @@ def step (st : State) (w : List String) : State × String :=
       | [.writeMsg] => (st, s!"lib:{lo}")
       | _ => (st, "model-inconsistent")
     | _, _, _, _ => (st, "bad-op")
+  -- `cache strip <answer kinds> <authority kinds>`: the model's `prepareStripped` (t TXT, s SOA, r RRSIG, c NSEC, 3 NSEC3)
+  | ["cache", "strip", an, ns] =>
+    let chars (x : String) : List Char := if x == "-" then [] else x.toList
+    if (chars an ++ chars ns).any (fun c => !(['t', 's', 'r', 'c', '3'].contains c)) then (st, "bad-op") else
+    let mkObj (c : Char) : Obj Rest :=
+      -- rrtype: 46 RRSIG, 47 NSEC, 50 NSEC3, 6 SOA, 16 TXT
+      let ty := if c == 'r' then 46 else if c == 'c' then 47 else if c == '3' then 50 else if c == 's' then 6 else 16
+      { isOPT := false, hdr := { rrtype := ty, ttl := 60, rdlength := 0 }, rest := { plen := some 20, adm := true, ulen := 20 } }
+    let anO : List (Slot × Obj Rest) := (chars an).zipIdx.map fun (c, i) => (some (i + 1), mkObj c)
+    let nsO : List (Slot × Obj Rest) := (chars ns).zipIdx.map fun (c, i) => (some (i + 101), mkObj c)
+    let heap := heapOf (anO ++ nsO)
+    let isSec : Obj Rest → Bool := fun o => o.hdr.rrtype == 46 || o.hdr.rrtype == 47 || o.hdr.rrtype == 50
+    let m : Msg (Option Nat × Nat) :=
+      { hdr := {}, compress := false, question := [{ name := (some 15, 19), qtype := 16, qclass := 1 }],
+        answer := anO.map (·.1), ns := nsO.map (·.1), extra := [] }
+    let due := (anO ++ nsO).any fun e => isSec e.2
+    let sv := strippedView isSec heap m
+    let pieces : List (Option Nat) := List.replicate (sv.records.length + 1) (some 20)
+    let pst : PState Rest (List (Option Nat)) := { buf := List.replicate packBufferSize 0x55 }
+    match (prepareStripped (lineLib pieces) isSec (fun _ => true) due m heap pst 9999).1 with
+    | some _ => (st, s!"an={sv.answer.length} ns={sv.ns.length}")
+    | none => (st, "none")
   -- `cache view <kinds of Extra>`: what admission stores for a message with that additional section
   | ["cache", "view", kinds] =>
     let ks := if kinds == "-" then [] else kinds.splitOn ","
